@@ -116,7 +116,11 @@ class _Reader:
             a = self.rhs()
             self.expect('OP', ')')
         elif self.peek()[0] in ('NAME', 'STRING'):
-            a = ('sym', self.next()[1])
+            kind, val = self.next()
+            if kind == 'STRING':
+                # a quoted terminal is a Python string literal: 'a', "a" and '\x61' are one symbol (canonical spelling)
+                val = repr(pyast.literal_eval(val))
+            a = ('sym', val)
         else:
             raise GrammarSyntaxError('expected atom, got %r' % (self.peek(),))
         if self.peek() == ('OP', '*'):
